@@ -154,12 +154,12 @@ def parse_output_lines(out):
     return res
 
 
-def flat_check(sig, calls, bindings):
+def flat_check(sig, calls, bindings, vbs=None):
     """spec vs CPython on the binding rule itself: one plain function, every call, executed
     in-process.  Returns None or a description of the first disagreement."""
     src = SHOW + "\nG = 0\n" + def_block(sig, "function", ["_show(locals(), G)"]) + "\n"
     for k, c in enumerate(calls):
-        src += "f(%s)\n" % args_text(c, k)
+        src += "f(%s)\n" % args_text(c, k if vbs is None else vbs[k])
     r = runpy.exec_source(src)
     if r["exc"] or r["syntax"]:
         return "CPython rejects the spec's program: %s\n%s" % (r["exc"], src)
@@ -287,12 +287,15 @@ def host_var_value(call, k, argvar):
     return "t", str(HOST_T + k), HOST_T + k, False
 
 
-def inline_site_lines(kind, call, k, mod, variant, ctx, cx, hostvar=False, argvar=None):
+def inline_site_lines(kind, call, k, mod, variant, ctx, cx, hostvar=False, argvar=None, vb=None, hostval=None):
     """source lines of site k: a marker line, [the host's variable], the call in its context,
     [a print of the host's variable]"""
-    atext = args_text(call, k, cx=cx)
+    atext = args_text(call, k if vb is None else vb, cx=cx)
     hv = None
-    if hostvar:
+    if hostval:
+        # spec-chosen scope: the host's own live local, named like the body's temporary
+        hv = ("t", str(hostval), hostval, False)
+    elif hostvar:
         hv = host_var_value(call, k, argvar)
         if hv[3]:
             # the first supplied argument is passed through the host variable
@@ -326,8 +329,9 @@ def inline_site_lines(kind, call, k, mod, variant, ctx, cx, hostvar=False, argva
 def render_inline_program(kind, sig, sites, dims):
     """dims: {"ctx": [per site], "variant": [per site], "ret": bool, "imp": bool, "use", "cx"}
     Returns files; entry module is n.py (imports m, so m's sites run first)."""
-    body = inline_body(kind, sig, dims["use"], dims["ret"], dims["imp"], dims.get("tmp", False))
-    host = dims.get("host", False)
+    scopes = dims.get("scopes", False)     # every site in a scope of its own (spec fields h / dup)
+    body = inline_body(kind, sig, dims["use"], dims["ret"], dims["imp"], dims.get("tmp", False) or scopes)
+    host = dims.get("host", False) and not scopes
     hostvar = dims.get("hostvar", False)
     argvar = dims.get("argvar")
     m = ""
@@ -360,9 +364,15 @@ def render_inline_program(kind, sig, sites, dims):
         if any(s["m"] == 2 for s in sites):
             n += "def g2():\n"
     for k, s in enumerate(sites):
-        lines = inline_site_lines(kind, s["c"], k, s["m"], dims["variant"][k], dims["ctx"][k], dims["cx"],
-                                  hostvar, argvar)
-        text = "".join(ind + l + "\n" for l in lines)
+        if scopes:
+            vb = 0 if s.get("dup") else k
+            lines = inline_site_lines(kind, s["c"], k, s["m"], dims["variant"][k], dims["ctx"][k], dims["cx"],
+                                      vb=vb, hostval=dims["hostval"][k])
+            text = "def g%d():\n" % k + "".join("    " + l + "\n" for l in lines) + "\n\ng%d()\n" % k
+        else:
+            lines = inline_site_lines(kind, s["c"], k, s["m"], dims["variant"][k], dims["ctx"][k], dims["cx"],
+                                      hostvar, argvar)
+            text = "".join(ind + l + "\n" for l in lines)
         if s["m"] == 1:
             m += text
         else:
@@ -397,7 +407,10 @@ def inline_expected(kind, sig, pairs_per_site, dims, sites=None):
                 out.append(("r", "none"))
         elif dims["ctx"][k] != "stmt":
             out.append(("r", ("ret", shown) if dims["ret"] else None))
-        if dims.get("hostvar") and sites is not None:
+        if dims.get("scopes"):
+            if dims["hostval"][k]:
+                out.append(("hv", dims["hostval"][k]))
+        elif dims.get("hostvar") and sites is not None:
             out.append(("hv", host_var_value(sites[k]["c"], k, dims.get("argvar"))[2]))
     return out
 
